@@ -94,6 +94,16 @@ def run(ctx):
                         pert = setting[2] * 10 ** rng.choice([3, 4, 5])
                     cases.append(mk_case(rng, p, fam, setting, so, bits, pert))
                 cases.append(mk_case(rng, p, fam, setting, "Wz" if so == "Wx" else "Wx", None, None, npseed=rng.randrange(2 ** 31)))
+        # integer-valued coefficient vectors (+-T_n, monomials) in every container the entry point accepts
+        for n in (range(1, 8) if quick else range(1, 13)):
+            tn = [float(x) for x in Q.cheb2mono([Fraction(0)] * n + [Fraction(1)])]
+            for p, fam in ((tn, "int:T_n"), ([-x for x in tn], "int:-T_n"), ([0.0] * n + [1.0], "int:x^n"), ([0.0] * n + [-1.0], "int:-x^n")):
+                for setting in (SETTINGS[0], (2e-2, 0.9, 1e-6)):
+                    for cont in ("intlist", "intarray", "floatlist", "polynomial"):
+                        if not quick or rng.random() < 0.5:
+                            c = mk_case(rng, p, fam, setting, rng.choice(["Wx", "Wz"]), Q.seed_vectors(rng, min(n, 12), 1)[0], None)
+                            c["container"] = cont
+                            cases.append(c)
     impl = run_impl(cases, timeout=3000)
     lines, keep = [], []
     for c, r in zip(cases, impl):
